@@ -86,15 +86,30 @@ DirInputHist ==
       u \in { <<DU("limit", <<AV("by", V("obj", [min |-> IntV(1)]))>>)>>, <<DU("limit", <<>>)>>, <<DU("limit", <<AV("by", V("obj", [x \in {} |-> 0]))>>)>> },
       x \in { <<ArgDD("max", I, IntV(10))>>, <<ArgD("max", I)>>, <<ArgDD("tags", ListOf(S), ListV(<<StrV("t")>>)), ArgDD("max", I, IntV(10))>> } }
 
+\* which types are the operation roots: by a schema block that lists some of the types with the usual names and leaves others out,
+\* by a schema block with unusual names, by the names alone
+RQ == ObjectD("Query", <<>>, <<FieldD("a", I, <<>>)>>)
+RM == ObjectD("Mutation", <<>>, <<FieldD("set", I, <<>>)>>)
+RS == ObjectD("Subscription", <<>>, <<FieldD("tick", I, <<>>)>>)
+RT == ObjectD("Top", <<>>, <<FieldD("t", I, <<>>)>>)
+RootDocs == { <<RQ, RM, SchemaD(<<RootD("query", "Query")>>)>>,
+              <<RQ, RM, RS, SchemaD(<<RootD("query", "Query"), RootD("mutation", "Mutation")>>)>>,
+              <<RQ, RS, SchemaD(<<RootD("query", "Query")>>)>>,
+              <<RQ, RM, RS, SchemaD(<<RootD("query", "Query"), RootD("mutation", "Mutation"), RootD("subscription", "Subscription")>>)>>,
+              <<RQ, RM, RS>>, <<RQ, RM>>,
+              <<RT, RQ, RM, SchemaD(<<RootD("query", "Top")>>)>>,
+              <<RT, RQ, SchemaD(<<RootD("query", "Query"), RootD("mutation", "Top")>>)>> }
+
 VARIABLES phase, cs
 pvars == <<phase, cs>>
-PInit == phase = "kind" /\ cs \in {[kind |-> k] : k \in {"desc", "default", "numeric", "bases", "diruses", "dirinput"}}
+PInit == phase = "kind" /\ cs \in {[kind |-> k] : k \in {"desc", "default", "numeric", "bases", "diruses", "dirinput", "roots"}}
 PNext == /\ phase = "kind" /\ phase' = "case"
          /\ cs' \in CASE cs.kind = "desc" -> {[kind |-> "desc", doc |-> v] : v \in UNION {Variants(x, "desc") : x \in DescStrings}}
                       [] cs.kind = "default" -> {[kind |-> "default", doc |-> v] : v \in UNION {Variants(x, "default") : x \in AnyStrings}}
                       [] cs.kind = "numeric" -> {[kind |-> "numeric", doc |-> d] : d \in DefaultDocs}
                       [] cs.kind = "diruses" -> {[kind |-> "diruses", doc |-> d] : d \in DirUseDocs}
                       [] cs.kind = "dirinput" -> {[kind |-> "dirinput", doc |-> h[1], doc2 |-> h[2]] : h \in DirInputHist}
+                      [] cs.kind = "roots" -> {[kind |-> "roots", doc |-> d] : d \in RootDocs}
                       [] cs.kind = "bases" -> {[kind |-> "bases", doc |-> Bases[b]] : b \in DOMAIN Bases}
 PSpec == PInit /\ [][PNext]_pvars
 
